@@ -282,7 +282,38 @@ def plan_C04(run):
                                      else "2^24 of the 2^32 zero-or-N-byte arrays (all 2^32 in thorough)")
 
 
+def apalache_inductive(run):
+    """Unbounded histories (design level): IndInv of spec/apalache/ReconnectInd.tla is inductive and implies C05."""
+    d = os.path.join(run.dir, "apalache")
+    os.makedirs(d, exist_ok=True)
+    shutil.copy(os.path.join(V, "spec", "apalache", "ReconnectInd.tla"), d)
+    steps = [("base", ["--init=Init", "--inv=IndInv", "--length=0"]), ("step", ["--init=IndInit", "--inv=IndInv", "--length=1"]),
+             ("implies-SingleUse", ["--init=IndInit", "--inv=SingleUse", "--length=0"]),
+             ("implies-OnlyCurrent", ["--init=IndInit", "--inv=OnlyCurrent", "--length=0"])]
+    res = {}
+    for name, args in steps:
+        try:
+            rc, o = vlib.sh(["apalache-mc", "check"] + args + ["ReconnectInd.tla"], timeout=600, cwd=d)
+        except ToolError as e:
+            res[name] = "timeout"
+            continue
+        if "EXITCODE: OK" in o:
+            res[name] = "ok"
+        elif "violation" in o.lower() and "Found" in o:
+            res[name] = "violated"
+            path = os.path.join(OUT, "replays", "C05-apalache-%s.txt" % name)
+            open(path, "w").write(o[-20000:])
+            run.violations.append({"kind": "model-invariant", "model": "ReconnectInd(apalache)", "replay": path, "tags": ["C05.model.IndInv." + name]})
+        else:
+            res[name] = "tool-error"
+    shutil.rmtree(os.path.join(d, "_apalache-out"), ignore_errors=True)
+    run.extra["apalache_inductive_invariant"] = res
+    log("apalache ReconnectInd (unbounded histories): %s" % res)
+
+
 def plan_C05(run):
+    if run.thorough:
+        apalache_inductive(run)
     r = run.model("reconnect", "MCReconnect", "MCReconnect_%s.cfg" % ("t" if run.thorough else "q"), workers=8, coverage=True,
                   exhaustive_note="all attempt histories up to the cfg's MaxLen over 9 attempt kinds")
     scen = run.scen_file("reconnect", r.replay)
